@@ -79,6 +79,13 @@ struct parquet_schema_element {
     /* Field 10: logicalType (modern logical type) */
     bool has_logical_type;
     carquet_logical_type_t logical_type;
+
+    /* Derived (not serialized): maximum definition / repetition level of a
+     * leaf, i.e. the number of optional-or-repeated / repeated nodes on the
+     * path from the root to this element, itself included. Filled in when the
+     * schema tree is built. */
+    int16_t max_def_level;
+    int16_t max_rep_level;
 };
 
 /* ============================================================================
